@@ -127,8 +127,21 @@ def run_blocks(case):
     return bad("method-type", "Stream.blocks must return a Stream",
                "Stream", type(it).__name__)
   got = []
+  counted = None
+  if route == "func-gen" and hop != float("inf"):
+    # "at the moment it is produced": complete block k is handed over as soon as its last item,
+    # k*hop+size-1, has been read - not one item later (a live source may depend on the block)
+    from ..sources import CountingSource
+    counted = CountingSource(list(L), name="blocks-source")
+    it = blocks(counted, size=size, hop=hop, padval=pad)
   for b in it:
     got.append(list(b))          # snapshot: the deque is reused by design
+    if counted is not None and not counted.ended:
+      k = len(got) - 1
+      due = k * hop + size
+      if counted.pulls > due and k * hop + size <= n:
+        return bad("blocks:late", "complete block %d was produced only after %d items had been read (its last "
+                   "item is number %d)" % (k, counted.pulls, due), due, counted.pulls, True, (len(exp), False))
     if len(got) > len(exp) + 3:
       break
   nontriv = len(exp) > 0
